@@ -27,12 +27,7 @@ pub fn parse_execute_response_data(data: &[u8]) -> (r: Result<MsgExecuteContract
 { unimplemented!() }
 impl Default for Binary { #[verifier::external_body] fn default() -> (r: Self) ensures r.b@.len() == 0 { Binary { b: Vec::new() } } }
 
-// `x.into()` for a caller-chosen `U: Into<String>` (rule R25): a pure function of x
-pub uninterp spec fn spec_into<U, T>(u: U) -> T;
-pub open spec fn spec_into_string<U>(u: U) -> String { spec_into::<U, String>(u) }
-#[verifier::external_body]
-pub fn vx_into<U: Into<T>, T>(u: U) -> (r: T) ensures r == spec_into::<U, T>(u) { u.into() }
-pub fn vx_into_string<U: Into<String>>(u: U) -> (r: String) ensures r == spec_into_string(u) { vx_into::<U, String>(u) }
+// (spec_into / vx_into / vx_into_string, rule R25, are in prelude/std_ext.rs)
 pub open spec fn wasm_instantiate2<C>(admin: Option<String>, code_id: u64, msg: Binary, funds: Seq<Coin>, label: String, salt: Binary) -> CosmosMsg<C> {
     CosmosMsg::Wasm(WasmMsg::Instantiate2 { admin, code_id, label, msg, funds: vec_of(funds), salt })
 }
@@ -67,6 +62,7 @@ pub trait Executor<C>: Sized {
 //@   replace? "res.data.unwrap_or_default().as_slice()" => "opt_binary_unwrap_or_default(res.data).as_slice()"
 //@   before "re:^\\s*let data = parse_instantiate_response_data" proof { assert forall|b: Binary| (#[trigger] b.b@).len() == 0 implies b.b@ == Seq::<u8>::empty() by { assert(b.b@ =~= Seq::<u8>::empty()); } }
 //@   ensures [C01.helper.instantiate,C05] !spec_json_ok(*init_msg) ==> r is Err && *final(self) == *old(self)
+//@   ensures [C01.helper.instantiate_atomic] (spec_json_ok(*init_msg) && r is Err) ==> old(self).exec_sem(sender, wasm_instantiate::<C>(admin, code_id, spec_json(*init_msg), send_funds@, spec_into_string(label))).0 is Err
 //@   ensures [C01.helper.instantiate_one_execute,C05] spec_json_ok(*init_msg) ==> inst_post(old(self).exec_sem(sender, wasm_instantiate::<C>(admin, code_id, spec_json(*init_msg), send_funds@, spec_into_string(label))), *final(self), r)
 //@ end
 //@ fn src/executor.rs :: trait Executor :: instantiate2_contract
@@ -78,6 +74,7 @@ pub trait Executor<C>: Sized {
 //@   replace? "execute_response.data.unwrap_or_default().as_slice()" => "opt_binary_unwrap_or_default(execute_response.data).as_slice()"
 //@   before "re:^\\s*let instantiate_response =\\s*$" proof { assert forall|b: Binary| (#[trigger] b.b@).len() == 0 implies b.b@ == Seq::<u8>::empty() by { assert(b.b@ =~= Seq::<u8>::empty()); } }
 //@   ensures [C01.helper.instantiate2,C05] !spec_json_ok(*init_msg) ==> r is Err && *final(self) == *old(self)
+//@   ensures [C01.helper.instantiate2_atomic] (spec_json_ok(*init_msg) && r is Err) ==> old(self).exec_sem(sender, wasm_instantiate2::<C>(spec_into::<A, Option<String>>(admin), code_id, spec_json(*init_msg), funds@, spec_into::<L, String>(label), spec_into::<S, Binary>(salt))).0 is Err
 //@   ensures [C01.helper.instantiate2_one_execute,C05,C11] spec_json_ok(*init_msg) ==> inst_post(old(self).exec_sem(sender, wasm_instantiate2::<C>(spec_into::<A, Option<String>>(admin), code_id, spec_json(*init_msg), funds@, spec_into::<L, String>(label), spec_into::<S, Binary>(salt))), *final(self), r)
 //@ end
 //@ fn src/executor.rs :: trait Executor :: execute_contract
